@@ -7,42 +7,35 @@ use crate::verif_hooks::spec::*;
 use crate::verif_hooks::PoisonHasher;
 use crate::{Cache, DefaultEvictCallback, PutResult, ResizableCache};
 
-/// list-length / capacity bound of this build (quick: 2, thorough: 3); iterators use NMAX
-pub const N: usize = match option_env!("VERIF_N") {
-    Some(s) => (s.as_bytes()[0] - b'0') as usize,
-    None => 2,
-};
+pub use crate::verif_hooks::gen::{any_abs, build, N};
 
 pub type Lru = RawLRU<u8, u8, DefaultEvictCallback, PoisonHasher>;
 
-/// arbitrary abstract list state: cap in 0..=maxcap (0 only with n = 0: reachable through resize(0)),
-/// n <= cap, keys pairwise distinct, values unconstrained
-pub fn any_abs(maxcap: usize, mincap: usize) -> Abs {
-    let cap: usize = kani::any();
-    let n: usize = kani::any();
-    kani::assume(cap >= mincap && cap <= maxcap && n <= cap && n <= NMAX);
-    let a = Abs { cap, n, k: kani::any(), v: kani::any(), complete: true }.canon();
-    kani::assume(a.distinct());
-    a
-}
-
-pub fn build<S: BuildHasher, E: OnEvictCallback>(a: &Abs, hasher: S, cb: Option<E>) -> RawLRU<u8, u8, E, S> {
-    RawLRU::verif_from_parts(a.cap, hasher, cb, a.n, |i| (a.k[i], a.v[i]))
-}
-
-/// arbitrary well-formed RawLRU together with its abstract view; the builder's output is itself
-/// checked so that a wrong builder cannot silently shrink the state space
+/// arbitrary well-formed RawLRU together with its abstract view.  That the builder produces a
+/// well-formed list with exactly the intended view is checked once, for all views, by `builder_sound`
+/// (so a wrong builder cannot silently shrink the state space).
 pub fn any_lru(maxcap: usize, mincap: usize) -> (Lru, Abs) {
     let a = any_abs(maxcap, mincap);
     let l: Lru = build(&a, PoisonHasher, None);
-    assert!(l.verif_wf(), "[builder] built state is well formed");
-    assert!(l.verif_abs() == a, "[builder] built state has the intended view");
     (l, a)
 }
 
+#[kani::proof]
+#[kani::unwind(6)]
+fn builder_sound() {
+    let a = any_abs(NMAX, 0);
+    kani::cover!(a.n == NMAX, "builder: full-length list");
+    kani::cover!(a.n == 0 && a.cap == 0, "builder: capacity 0");
+    let l: Lru = build(&a, PoisonHasher, None);
+    let (b, wf) = l.verif_check();
+    assert!(wf, "[C03.builder] every state the builder produces satisfies the representation invariant");
+    assert!(b == a, "[C03.builder] every state the builder produces has exactly the intended view");
+    core::mem::forget(l);
+}
+
 macro_rules! inv {
-    ($l:expr, $post:expr) => {
-        assert!($l.verif_wf(), "[C03.wf] list is a well-formed chain between its sentinels matching its index");
+    ($l:expr, $wf:expr, $post:expr) => {
+        assert!($wf, "[C03.wf] list is a well-formed chain between its sentinels matching its index");
         assert!($post.n <= $post.cap, "[C01.cap] resident count within capacity");
         assert!($l.len() == $post.n, "[C01.len] len() equals the number of linked entries");
         assert!($l.is_empty() == ($post.n == 0), "[C01.empty] is_empty() iff nothing retained");
@@ -62,9 +55,9 @@ fn put() {
     kani::cover!(!pre.has(k) && pre.n == pre.cap && pre.cap > 0, "put: eviction case");
     kani::cover!(pre.cap == 0, "put: capacity 0 case");
     let r = l.put(k, v);
-    let post = l.verif_abs();
+    let (post, wf) = l.verif_check();
     let (exp, exp_r) = spec_lru_put(&pre, k, v);
-    inv!(l, post);
+    inv!(l, wf, post);
     assert!(pr_of(&r) == exp_r, "[C12.result][C06.victim] put reports Put/Update(old)/Evicted(true LRU) truthfully");
     assert!(post.same_map(&exp), "[C02.map][C12.delta] retained map changed by exactly +k, -reported entry");
     assert!(pre.cap == 0 || post.val_of(k) == Some(v), "[C02.value][C12.resident] after put(k,v) k is resident with v");
@@ -83,8 +76,8 @@ fn get() {
     kani::cover!(pre.has(k), "get: hit");
     kani::cover!(!pre.has(k), "get: miss");
     let r = l.get(&k).copied();
-    let post = l.verif_abs();
-    inv!(l, post);
+    let (post, wf) = l.verif_check();
+    inv!(l, wf, post);
     assert!(r == pre.val_of(k), "[C02.lookup] get returns exactly the stored value, None iff absent");
     let exp = match pre.pos(k) {
         Some(i) => pre.touch(i, None),
@@ -111,8 +104,8 @@ fn get_mut() {
         }
         None => None,
     };
-    let post = l.verif_abs();
-    inv!(l, post);
+    let (post, wf) = l.verif_check();
+    inv!(l, wf, post);
     assert!(r == pre.val_of(k), "[C02.lookup] get_mut hands out the stored value, None iff absent");
     let exp = match pre.pos(k) {
         Some(i) => pre.touch(i, Some(w)),
@@ -135,8 +128,8 @@ fn peek_contains() {
     let r = l.peek(&k).copied();
     let c = l.contains(&k);
     let r2 = l.peek_(&k).copied();
-    let post = l.verif_abs();
-    inv!(l, post);
+    let (post, wf) = l.verif_check();
+    inv!(l, wf, post);
     assert!(r == pre.val_of(k) && r2 == r, "[C02.lookup] peek returns exactly the stored value, None iff absent");
     assert!(c == pre.has(k), "[C02.lookup] contains agrees with residency");
     assert!(post == pre, "[C13.readonly][C06.nouse] peek/contains leave the view (order, values, cap) unchanged");
@@ -163,8 +156,8 @@ fn peek_mut() {
         None => None,
     };
     let r2 = l.peek_mut_(&k).map(|v| *v);
-    let post = l.verif_abs();
-    inv!(l, post);
+    let (post, wf) = l.verif_check();
+    inv!(l, wf, post);
     assert!(r == pre.val_of(k), "[C02.lookup] peek_mut hands out the stored value, None iff absent");
     let exp = match (pre.pos(k), w) {
         (Some(i), Some(w)) => pre.with_val(i, w),
@@ -185,8 +178,8 @@ fn remove() {
     kani::cover!(pre.has(k), "remove: hit");
     kani::cover!(!pre.has(k), "remove: miss");
     let r = l.remove(&k);
-    let post = l.verif_abs();
-    inv!(l, post);
+    let (post, wf) = l.verif_check();
+    inv!(l, wf, post);
     assert!(r == pre.val_of(k), "[C02.remove] remove hands back the stored value, None iff absent");
     let exp = match pre.pos(k) {
         Some(i) => pre.remove_at(i),
@@ -219,8 +212,8 @@ fn get_lru_variants() {
     } else {
         l.get_lru().map(|(k, v)| (*k, *v))
     };
-    let post = l.verif_abs();
-    inv!(l, post);
+    let (post, wf) = l.verif_check();
+    inv!(l, wf, post);
     assert!(r == pre.last(), "[C06.lru] get_lru/get_lru_mut name the least recently used entry");
     let exp = if pre.n == 0 { pre } else { pre.touch(pre.n - 1, if mutable { Some(w) } else { None }) };
     assert!(post.view_eq(&exp), "[C06.order][C02.write] get_lru(_mut) is a use: entry moves to the front, write lands in it");
@@ -240,8 +233,8 @@ fn mru_lru_peeks() {
     let d = l.peek_lru_mut().map(|(k, v)| (*k, *v));
     let e = l.peek_mru_mut().map(|(k, v)| (*k, *v));
     let f = l.get_mru_mut().map(|(k, v)| (*k, *v));
-    let post = l.verif_abs();
-    inv!(l, post);
+    let (post, wf) = l.verif_check();
+    inv!(l, wf, post);
     assert!(a == pre.last() && d == pre.last(), "[C06.lru] peek_lru(_mut) name the least recently used entry");
     assert!(b == pre.first() && c == pre.first() && e == pre.first() && f == pre.first(),
         "[C06.mru] peek_mru(_mut)/get_mru(_mut) name the most recently used entry");
@@ -265,8 +258,8 @@ fn mru_lru_mut_writes() {
         1 => { *l.peek_mru_mut().unwrap().1 = w; 0 }
         _ => { *l.get_mru_mut().unwrap().1 = w; 0 }
     };
-    let post = l.verif_abs();
-    inv!(l, post);
+    let (post, wf) = l.verif_check();
+    inv!(l, wf, post);
     assert!(post == pre.with_val(at, w), "[C02.write][C06.nouse] write through peek_lru_mut/peek_mru_mut/get_mru_mut lands in that entry, order unchanged");
     core::mem::forget(l);
 }
@@ -292,8 +285,8 @@ fn or_put_variants() {
         1 => { let (a, b) = l.peek_mut_or_put(k, v); (a.map(|x| *x), b.map(|x| pr_of(&x))) }
         _ => { let (a, b) = l.contains_or_put(k, v); (if a { pre.val_of(k) } else { None }, b.map(|x| pr_of(&x))) }
     };
-    let post = l.verif_abs();
-    inv!(l, post);
+    let (post, wf) = l.verif_check();
+    inv!(l, wf, post);
     if pre.has(k) {
         assert!(seen == pre.val_of(k) && r.is_none(), "[C02.lookup][C12.result] *_or_put on a present key peeks: stored value, no PutResult");
         assert!(post == pre, "[C13.readonly][C06.nouse] *_or_put on a present key leaves the view unchanged");
@@ -316,8 +309,8 @@ fn remove_lru() {
     kani::cover!(pre.n == 1, "remove_lru: last entry");
     kani::cover!(pre.n >= 2, "remove_lru: several entries");
     let r = l.remove_lru();
-    let post = l.verif_abs();
-    inv!(l, post);
+    let (post, wf) = l.verif_check();
+    inv!(l, wf, post);
     assert!(r == pre.last(), "[C06.lru][C02.remove] remove_lru returns the least recently used pair, None iff empty");
     let exp = if pre.n == 0 { pre } else { pre.drop_last() };
     assert!(post.view_eq(&exp), "[C06.order][C02.map] remove_lru takes out exactly the last entry");
@@ -331,8 +324,8 @@ fn purge() {
     kani::cover!(pre.n >= 2, "purge: several entries");
     kani::cover!(pre.n == 0, "purge: empty");
     l.purge();
-    let post = l.verif_abs();
-    inv!(l, post);
+    let (post, wf) = l.verif_check();
+    inv!(l, wf, post);
     assert!(post == Abs::empty(pre.cap), "[C06.purge][C02.absent][C01.cap] purge leaves an empty cache with the same capacity");
     let j: u8 = kani::any();
     assert!(!l.contains(&j), "[C02.absent] nothing is resident after purge");
@@ -350,8 +343,8 @@ fn resize() {
     kani::cover!(c > pre.cap, "resize: grow");
     kani::cover!(c == pre.cap, "resize: same capacity");
     let r = l.resize(c);
-    let post = l.verif_abs();
-    inv!(l, post);
+    let (post, wf) = l.verif_check();
+    inv!(l, wf, post);
     let dropped = if pre.n > c { pre.n - c } else { 0 };
     assert!(r == dropped as u64, "[C06.resize] resize returns max(0, len - n)");
     assert!(post.view_eq(&pre.truncate(c).with_cap(c)), "[C06.resize][C06.order][C01.cap] resize keeps the most recent min(len, n) entries in order and sets the capacity");
@@ -373,8 +366,8 @@ fn resize_then_put() {
     l.resize(c);
     let mid = l.verif_abs();
     let r = l.put(k, v);
-    let post = l.verif_abs();
-    inv!(l, post);
+    let (post, wf) = l.verif_check();
+    inv!(l, wf, post);
     let (exp, exp_r) = spec_lru_put(&mid, k, v);
     assert!(pr_of(&r) == exp_r, "[C12.result][C12.cap0] put after resize reports truthfully (capacity 0 hands the pair back as Evicted)");
     assert!(post.view_eq(&exp), "[C06.order][C06.resize] the resized capacity is enforced by the next put");
@@ -446,8 +439,8 @@ fn put_nonnull() {
     kani::cover!(pre.n < pre.cap, "put_nonnull: room");
     kani::cover!(pre.n == pre.cap, "put_nonnull: full");
     let r = l.put_nonnull(fresh_node(k, v));
-    let post = l.verif_abs();
-    inv!(l, post);
+    let (post, wf) = l.verif_check();
+    inv!(l, wf, post);
     let (exp, exp_r) = spec_lru_put(&pre, k, v);
     assert!(pr_of(&r) == exp_r, "[C12.result][C04.handover] put_nonnull frees and reports the displaced LRU entry, Put otherwise");
     assert!(post.view_eq(&exp), "[C01.cap][C03.handover] put_nonnull links the node at the front, evicting the LRU entry when full");
@@ -464,8 +457,8 @@ fn put_or_evict_nonnull() {
     kani::cover!(pre.n < pre.cap, "put_or_evict_nonnull: room");
     kani::cover!(pre.n == pre.cap, "put_or_evict_nonnull: full");
     let r = l.put_or_evict_nonnull(fresh_node(k, v));
-    let post = l.verif_abs();
-    inv!(l, post);
+    let (post, wf) = l.verif_check();
+    inv!(l, wf, post);
     let (exp, exp_r) = spec_lru_put(&pre, k, v);
     match r {
         None => assert!(exp_r == PR::Put, "[C03.handover] no node is displaced while there is room"),
@@ -490,8 +483,8 @@ fn remove_and_return_ent() {
     kani::cover!(pre.has(k), "remove_and_return_ent: hit");
     kani::cover!(!pre.has(k), "remove_and_return_ent: miss");
     let r = l.remove_and_return_ent(&k);
-    let post = l.verif_abs();
-    inv!(l, post);
+    let (post, wf) = l.verif_check();
+    inv!(l, wf, post);
     match (r, pre.pos(k)) {
         (Some(n), Some(i)) => {
             assert!(node_kv(n) == (k, pre.v[i]), "[C03.handover][C02.remove] the node handed out carries the key and its stored value");
@@ -511,8 +504,8 @@ fn remove_lru_in() {
     kani::cover!(pre.n == 0, "remove_lru_in: empty");
     kani::cover!(pre.n >= 2, "remove_lru_in: several");
     let r = l.remove_lru_in();
-    let post = l.verif_abs();
-    inv!(l, post);
+    let (post, wf) = l.verif_check();
+    inv!(l, wf, post);
     match r {
         Some(n) => {
             assert!(Some(node_kv(n)) == pre.last(), "[C03.handover][C06.lru] remove_lru_in hands out the LRU node intact");
@@ -535,8 +528,8 @@ fn update_in_place() {
     let v0 = v;
     let (nodes, _, _) = l.verif_nodes();
     l.update(&mut v, nodes[i]);
-    let post = l.verif_abs();
-    inv!(l, post);
+    let (post, wf) = l.verif_check();
+    inv!(l, wf, post);
     assert!(v == pre.v[i], "[C02.value][C12.result] update swaps out the previously stored value");
     assert!(post.view_eq(&pre.touch(i, Some(v0))), "[C02.write][C06.order] update stores the new value and moves the entry to the front");
     core::mem::forget(l);
